@@ -103,7 +103,9 @@ func profileFor(prop string) profile {
 		p.faultFree, p.maxClients, p.pAppClose, p.pServerClose, p.pClientFault, p.pClientClose = 0.2, 4, 0.4, 0.2, 0.5, 0.3
 		p.hot = []string{"baseServer.Handshake", "socket.OnClose", "socket.onOpen", "socket.Construct", "NewSocket"}
 	case "C06":
-		p.faultFree, p.maxClients, p.pInitial, p.pCookie, p.pPrimer = 0.8, 4, 0.5, 0.4, 0.3
+		p.faultFree, p.maxClients, p.pInitial, p.pCookie, p.pPrimer = 0.7, 4, 0.5, 0.4, 0.3
+		p.pClientFault = 0.6 // (handshakes the client gives up on)
+		p.hot = []string{"baseServer.Handshake", "socket.onOpen", "socket.Construct", "NewSocket", "polling.onPollRequest"}
 	case "C07":
 		p.faultFree, p.smallHB, p.pLatePong, p.pSilence, p.pUpgrade = 0.4, 1, 0.5, 0.3, 0.15
 		p.pAppClose, p.pServerClose, p.pClientFault, p.pClientClose = 0, 0, 0.1, 0
